@@ -724,6 +724,40 @@ pub fn run(ctx: &mut Ctx) {
         ctx.op(&line, &ans);
         sq.cache = None;
     }
+    // ---- a damaged file that the re-opened cache does not track (C12): put X, close, flip one bit of X's file (same length),
+    // re-open with a capacity below the file's length (the start-up scan then leaves the file alone, untracked), put X again with the
+    // original bytes, get X: a hit must carry the bytes that were put
+    for round in 0..(if ctx.quick() { 24 } else { 200 }) {
+        let mut rng = ctx.rng.fork(0xAD09 + round);
+        let env = gen_env(ctx, &mut rng, 1, false);
+        let _ = std::fs::remove_dir_all(&root);
+        std::fs::create_dir_all(&root).unwrap();
+        let x = &env.xorbs[0];
+        let n = x.nchunks();
+        let s = rng.below(n as u64) as u32; let e = rng.range(s as u64 + 1, n as u64) as u32;
+        let (offs, data) = x.slice(s, e);
+        let range = ChunkRange { start: s, end: e };
+        { let c = DiskCache::initialize(&CacheConfig { cache_directory: root.clone(), cache_size: 1 << 30 }).unwrap(); c.put(&x.key, &range, &offs, data).unwrap(); }
+        let files: Vec<String> = walk_order(&root).into_iter().filter(|(_, d)| !*d).map(|(p, _)| p).collect();
+        if files.len() != 1 { continue; }
+        let p = root.join(&files[0]);
+        let mut b = std::fs::read(&p).unwrap();
+        let pos = b.len() - 1 - rng.below((b.len() as u64).min(40)) as usize;
+        b[pos] ^= 1 << rng.below(8);
+        std::fs::write(&p, &b).unwrap();
+        let cap2 = match rng.below(3) { 0 => b.len() as u64 - 1, 1 => (b.len() as u64 / 2).max(1), _ => b.len() as u64 };
+        let c = match guarded(|| DiskCache::initialize(&CacheConfig { cache_directory: root.clone(), cache_size: cap2 })) { Ok(Ok(c)) => c, _ => continue };
+        let r1 = guarded(|| c.put(&x.key, &range, &offs, data));
+        let r2 = guarded(|| c.get(&x.key, &range));
+        let replay = format!("{{\"suite\":\"cache_seq\",\"seed\":{},\"adopt_round\":{round}}}", ctx.seed);
+        if r1.is_err() || r2.is_err() { ctx.fail("C12", "panic", format!("put/get panicked after a re-open with capacity {cap2} over a damaged file of {} bytes (round {round})", b.len()), replay.clone()); }
+        if let Ok(Ok(Some(cr))) = &r2 {
+            if cr.data.as_ref() != data || cr.offsets.as_ref() != offs.as_slice() {
+                ctx.fail("C12", "hit-from-damaged-untracked-file", format!("put X, close, flip one bit in X's file, re-open with capacity {cap2} (file has {} bytes), put X again, get X: the hit does not carry the bytes that were put (round {round})", b.len()), replay);
+            }
+            ctx.stat("adopt_round_hit");
+        } else { ctx.stat("adopt_round_no_hit"); }
+    }
     utils::verif_hooks::set_callback(None);
     std::panic::set_hook(old_hook);
     let _ = std::fs::remove_dir_all(&root);
